@@ -25,10 +25,14 @@ static TaskPlan gen_client(Rng &r, bool thorough) {
     for (int h = 0; h < nh; h++) {
         int rounds = r.chance(0.2) ? 2 : 1; // a handle slot can be re-used after it was freed
         for (int q = 0; q < rounds; q++) {
-            Op f; f.kind = "bfactor"; f.handle = h; f.mat = h; per[h].push_back(f);
+            Op f; f.kind = "bfactor"; f.handle = h; f.mat = h;
+            // what the caller's handle variable holds on entry (own stream: the plans themselves stay what they were)
+            { uint64_t vb = 0; memcpy(&vb, &t.mats[h].re[0], sizeof vb); f.rhs_seed = mix3(0xB1D6E, (uint64_t)h * 131 + q, vb ^ (uint64_t)t.mats[h].nnz()); }
+            per[h].push_back(f);
             int ns = r.range(0, 4); Op last; bool have = false;
             for (int k = 0; k < ns; k++) {
                 Op sv; sv.kind = "bsolve"; sv.handle = h; sv.nrhs = r.range(1, 3); sv.ldpad = r.chance(0.4) ? r.range(1, 3) : 0; sv.rhs_seed = r.next();
+                if ((sv.rhs_seed >> 40) % 8 == 0) sv.nrhs = 0; // a solve request without right-hand sides is legal and touches nothing
                 if (have && r.chance(0.3)) sv = last; // the same solve again
                 per[h].push_back(sv); last = sv; have = true;
             }
